@@ -74,7 +74,7 @@ func isNilClientMsg(msg ClientMsg) bool {
 	return msg == nil || reflect.ValueOf(msg).IsNil()
 }
 
-var clientMsgRegexp = regexp.MustCompile(`^\[\s*"(\w*)"`)
+var clientMsgRegexp = regexp.MustCompile(`^\s*\[\s*"(\w*)"`)
 
 func ParseClientMsg(b []byte) (msg ClientMsg, err error) {
 	match := clientMsgRegexp.FindSubmatch(b)
